@@ -86,6 +86,9 @@ class C16:
                 "get_reinforce_baseline('warmup', baseline=...) : TypeError (duplicate argument) - warm-up over "
                 "other inner baselines is built by constructing WarmupBaseline directly",
                 "SymNCO(num_starts=None): constructor compares None > 1",
+                "get_reinforce_baseline('warmup', n_epochs=k) nests WarmupBaseline(WarmupBaseline(Rollout)): at "
+                "0 < alpha < 1 with a wrapped dataset the baseline value is taken as reported (the stated mixture of "
+                "the nested form is open); alpha = 0 and alpha = 1 steps and the alpha schedule are checked",
                 "PPO normalize_adv=True with a mini-batch of one row (sample std undefined -> NaN)",
                 "A2C with a critic sharing the policy's encoder (its two optimiser groups would overlap; torch "
                 "refuses) - the shared-encoder critic is exercised through REINFORCE(baseline='critic') and PPO"]
@@ -476,6 +479,16 @@ class _History:
                     b = ex
                 elif a == 0:
                     raise HarnessError("dataset wrapped while alpha == 0")
+                elif bl_kind == "warmup_string":
+                    # get_reinforce_baseline("warmup") nests WarmupBaseline(WarmupBaseline(Rollout)): what the
+                    # "stated" mixture of the nested form is stays open -> take the value as reported and
+                    # re-synchronise the outer moving average from the library
+                    run.probe("nested_warmup_mix_unchecked")
+                    b = _L(bl_val_lib)
+                    if len(b) != n:
+                        b = ex
+                    v_lib = self.model.baseline.warmup_baseline.v
+                    self.warm.ema.v = None if v_lib is None else float(v_lib)
                 else:
                     run.probe("step_warmup_mix_extra")
                     ema_before = self.warm.ema.v
@@ -739,7 +752,7 @@ class _History:
         if st["inner"] == 0:
             raise HarnessError("PPO made no inner step")
         mb = plan["mini_batch_size"]
-        mb = int(Bn * mb) if isinstance(mb, float) else mb
+        mb = max(1, int(Bn * mb)) if isinstance(mb, float) else mb
         mb = min(mb, Bn)
         if Bn % mb:
             run.probe("ppo_partial_minibatch")
